@@ -174,6 +174,15 @@ func c08Result(cx *explore.Ctx, q run.Query, r run.Result) {
 		cx.C.Add(v)
 	}
 	exps := refExpectations(cons)
+	// the operand of an operator directly under an AnyExpression attribute: the expected type is the operator's
+	// parameter type (number for arithmetic and comparison, bool for logic, anything for equality)
+	if _, isAny := cons.(schema.AnyExpression); isAny && !top {
+		if pt, ok := operandTypeAt(attr.Expr, q.Pos); ok {
+			exps, top = []refExpect{{"", pt}}, true
+			cons = schema.AnyExpression{OfType: pt}
+			cx.L.Count("operand_positions", 1)
+		}
+	}
 	selfOn := bc.Eff.Ext.SelfRefs
 	for _, cd := range cands.List {
 		typedTxt := ""
@@ -251,7 +260,8 @@ func c08Result(cx *explore.Ctx, q run.Query, r run.Result) {
 				add("function:unknown", "function", fmt.Sprintf("candidate %q is not a known function", cd.Label))
 				continue
 			}
-			if !strings.HasPrefix(cd.Label, strings.TrimSpace(typedTxt)) {
+			// (the parser accepts blanks around the :: of a namespaced name: compared with blanks removed)
+			if !strings.HasPrefix(cd.Label, strings.NewReplacer(" ", "", "\t", "").Replace(typedTxt)) {
 				add("function:prefix", "function", fmt.Sprintf("candidate %q does not start with the typed text %q", cd.Label, typedTxt))
 			}
 			if top && len(exps) > 0 {
@@ -451,6 +461,10 @@ func c08RoundTrip(cx *explore.Ctx, q run.Query, cands lang.Candidates, all []ref
 		if decl == nil {
 			continue
 		}
+		// (a declaration whose label is empty - a header cut in the middle - has an address that is no reference text)
+		if _, d := hclsyntax.ParseTraversalAbs([]byte(cd.Label), "", hcl.InitialPos); d.HasErrors() {
+			continue
+		}
 		er := cd.TextEdit.Range
 		if er.Start.Byte < 0 || er.End.Byte > len(cx.Src) || er.Start.Byte > er.End.Byte {
 			continue
@@ -499,11 +513,16 @@ func C08(tier string) int {
 // the edited file parses and the attribute evaluates to the constraint's value.
 func c08LiteralRoundTrip(cx *explore.Ctx, q run.Query, cons schema.Constraint, cands lang.Candidates, attr *hclsyntax.Attribute, add func(clause, site, detail string)) {
 	lv, ok := cons.(schema.LiteralValue)
-	if !ok || lv.Value.IsNull() || !lv.Value.IsWhollyKnown() || q.Kind != run.Completion {
+	_, isLT := cons.(schema.LiteralType)
+	if q.Kind != run.Completion || (!ok && !isLT) || (ok && (lv.Value.IsNull() || !lv.Value.IsWhollyKnown())) {
 		return
 	}
 	_, od := hclsyntax.ParseConfig(cx.Src, cx.Case.File, hcl.InitialPos)
 	origClean := !od.HasErrors()
+	// (a value that already spans several lines is replaced piecemeal: no claim about the text left behind)
+	if er := attr.Expr.Range(); er.Start.Line != er.End.Line {
+		return
+	}
 	// candidates of a completion hook are the hook's business
 	if as := attrSchemaOf(cx, attr); as != nil && len(as.CompletionHooks) > 0 {
 		return
@@ -512,6 +531,10 @@ func c08LiteralRoundTrip(cx *explore.Ctx, q run.Query, cons schema.Constraint, c
 		switch cd.Kind {
 		// (object and map candidates insert the braces only - the items are completed one by one afterwards)
 		case lang.StringCandidateKind, lang.NumberCandidateKind, lang.BoolCandidateKind, lang.ListCandidateKind, lang.SetCandidateKind, lang.TupleCandidateKind:
+		case lang.MapCandidateKind, lang.ObjectCandidateKind:
+			if !isLT {
+				continue
+			}
 		default:
 			continue
 		}
@@ -539,6 +562,9 @@ func c08LiteralRoundTrip(cx *explore.Ctx, q run.Query, cons schema.Constraint, c
 		if got == nil {
 			continue
 		}
+		if isLT {
+			continue // a literal of the type is offered as a skeleton: it only has to be well-formed
+		}
 		v, vd := got.Expr.Value(nil)
 		if vd.HasErrors() {
 			add("literal:accepted-text-is-not-the-value", "literal", fmt.Sprintf("accepting %q (plain text %q) does not evaluate to a literal: %s", cd.Label, cd.TextEdit.NewText, vd.Error()))
@@ -565,4 +591,43 @@ func attrSchemaOf(cx *explore.Ctx, attr *hclsyntax.Attribute) *schema.AttributeS
 		return root.Attributes[attr.Name]
 	}
 	return nil
+}
+
+
+// operandTypeAt: e is a binary or unary operation and pos lies in (or right behind) a plain operand of it
+// (a bare name being typed); returns the operator's parameter type for that operand.
+func operandTypeAt(e hclsyntax.Expression, pos hcl.Pos) (cty.Type, bool) {
+	plain := func(x hclsyntax.Expression) bool {
+		st, ok := x.(*hclsyntax.ScopeTraversalExpr)
+		if !ok {
+			return false
+		}
+		for _, s := range st.Traversal {
+			if _, idx := s.(hcl.TraverseIndex); idx {
+				return false
+			}
+		}
+		r := st.Range()
+		return r.Start.Byte <= pos.Byte && pos.Byte <= r.End.Byte
+	}
+	switch op := e.(type) {
+	case *hclsyntax.BinaryOpExpr:
+		if op.Op == nil || op.Op.Impl.Params() == nil || len(op.Op.Impl.Params()) != 2 {
+			return cty.NilType, false
+		}
+		if plain(op.LHS) {
+			return op.Op.Impl.Params()[0].Type, true
+		}
+		if plain(op.RHS) {
+			return op.Op.Impl.Params()[1].Type, true
+		}
+	case *hclsyntax.UnaryOpExpr:
+		if op.Op == nil || len(op.Op.Impl.Params()) != 1 {
+			return cty.NilType, false
+		}
+		if plain(op.Val) {
+			return op.Op.Impl.Params()[0].Type, true
+		}
+	}
+	return cty.NilType, false
 }
